@@ -606,6 +606,47 @@ def edge_stream(ck: Checker, rng) -> None:
                 P.hit("edge_tiny_raises_other")
 
 
+def glue_checks(ck: Checker, rng) -> None:
+    """array-likes (tuple of lists, int / float32 records) and repeated calls go through the same code path: results must be identical;
+    the caller's records are not modified"""
+    P = ck.P
+    N = 1600
+    xs = [rng.standard_normal(N), rng.standard_normal(N)]
+    y = 0.8 * np.roll(xs[0], 2) - 0.4 * xs[1] + 0.5 * rng.standard_normal(N)
+    kw = {"Jdes": 12, "Kdes": 10, "order": 1}
+    c = {"sub_seed": -4, "q": 2, "N": N, "fs": 2.0, "family": "glue", "coupling": "delay", "xs": xs, "y": y, "kw": kw, "noise_rel": 0.5, "big": False}
+    keep = [v.copy() for v in xs] + [y.copy()]
+    for sv in ("numeric", "analytic"):
+        f0, a0 = call(sv, xs, y, 2.0, kw)
+        f1, a1 = call(sv, xs, y, 2.0, kw)
+        from speckit import systems
+        fn = systems.MISO_numeric_optimal_spectral_analysis if sv == "numeric" else systems.MISO_analytic_optimal_spectral_analysis
+        f2, a2 = fn(tuple(v.tolist() for v in xs), y.tolist(), 2.0, **kw)
+        P.cases += 3
+        P.hit("glue")
+        P.nontrivial.add(("glue", sv))
+        if not (np.array_equal(a0, a1, equal_nan=True) and np.array_equal(f0, f1)):
+            ck.viol(c, "glue", sv, "two identical calls return different results (state carried between calls)")
+        if not (np.array_equal(a0, a2, equal_nan=True) and np.array_equal(f0, f2)):
+            ck.viol(c, "glue", sv, "tuple-of-lists inputs give a different result from the same data as arrays")
+    f3, a3 = call("siso", [xs[0].tolist()], y.tolist(), 2.0, kw)
+    f4, a4 = call("siso", [xs[0]], y, 2.0, kw)
+    P.cases += 2
+    if not np.array_equal(a3, a4, equal_nan=True):
+        ck.viol(c, "glue", "siso", "list inputs give a different result from the same data as arrays")
+    if any(not np.array_equal(k, v) for k, v in zip(keep, xs + [y])):
+        ck.viol(c, "glue", "all", "the caller's records were modified")
+    # integer-valued records: exact static combination with integer coefficients stays exact in int64 and float64
+    xi = [rng.integers(-50, 51, size=N), rng.integers(-50, 51, size=N)]
+    yi = 3 * xi[0] - 2 * xi[1]
+    for sv in ("numeric", "analytic"):
+        fa, aa = call(sv, xi, yi, 1.0, {"Jdes": 10, "Kdes": 8})
+        fb, ab = call(sv, [v.astype(float) for v in xi], yi.astype(float), 1.0, {"Jdes": 10, "Kdes": 8})
+        P.cases += 2
+        if not np.array_equal(aa, ab, equal_nan=True):
+            ck.viol(c, "glue", sv, "int64 records give a different result from the same values as float64")
+
+
 def oracle(ctx, intensive: bool = False, hints: List[Dict[str, Any]] = ()) -> C.Part:
     """the property's sub-claims on the real implementation only"""
     P = C.Part()
@@ -620,6 +661,21 @@ def oracle(ctx, intensive: bool = False, hints: List[Dict[str, Any]] = ()) -> C.
         edge_stream(ck, np.random.default_rng(int(ctx.rng.integers(0, 2 ** 62))))
     except Exception as ex:
         P.notes.append(f"edge stream aborted: {ex!r}"[:200])
+    try:
+        glue_checks(ck, np.random.default_rng(int(ctx.rng.integers(0, 2 ** 62))))
+    except Exception as ex:
+        P.notes.append(f"glue checks aborted: {ex!r}"[:200])
+    # cases on which the model and the implementation disagreed are searched first
+    for h in list(hints)[:6]:
+        cd = h.get("case") if isinstance(h, dict) else None
+        if isinstance(cd, dict) and cd.get("sub_seed", -1) >= 0:
+            try:
+                hc = build_case(cd["sub_seed"], cd["q"], bool(cd.get("big", False)), cd["family"], cd["coupling"])
+                hc["kw"] = dict(cd["kw"])
+                ck.check_case(hc)
+                P.hit("hinted_case")
+            except Exception as ex:
+                P.notes.append(f"hinted case failed to run: {ex!r}"[:200])
     qs = [1, 2, 3, 2, 1, 3, 2, 4]
     for i in range(n):
         if ctx.time_left() < 25 or ctx.budget_s - ctx.time_left() > cap_s:
@@ -658,6 +714,9 @@ def replay(ctx, data) -> C.Part:
             c = d2_witness()
         elif cd["sub_seed"] == -3:
             edge_stream(ck, np.random.default_rng(0))
+            continue
+        elif cd["sub_seed"] == -4:
+            glue_checks(ck, np.random.default_rng(0))
             continue
         else:
             c = build_case(cd["sub_seed"], cd["q"], bool(cd.get("big", False)), cd["family"], cd["coupling"])
